@@ -263,13 +263,14 @@ def unsat(cons, ranges=None, focus=None):
         seen = set()
         for c in cons:
             seen.update(c[0].t.keys())
-    les, eqs = [], []
+    les, eqs, nes = [], [], []
     for e, k in cons:
         if k == "le":
             les.append(e)
         elif k == "eq":
             eqs.append(e)
-        # 'ne' ignored (weakening)
+        else:
+            nes.append(e)
     if ranges:
         for s in seen:
             r = ranges.get(s)
@@ -279,12 +280,23 @@ def unsat(cons, ranges=None, focus=None):
                     les.append(Lin({s: -1}, lo))
                 if hi is not None:
                     les.append(Lin({s: 1}, -hi))
-    key = (frozenset(les), frozenset(eqs))
+    key = (frozenset(les), frozenset(eqs), frozenset(nes))
     stats["queries"] += 1
     if key in _cache:
         stats["cache_hits"] += 1
         return _cache[key]
     r = _unsat(les, eqs)
+    if not r:
+        # a disequality e != 0 is violated when the rest forces e == 0
+        for e in nes:
+            k2 = (key[0], key[1], e)
+            f = _cache.get(k2)
+            if f is None:
+                f = _unsat(les + [e + 1], eqs) and _unsat(les + [(-e) + 1], eqs)
+                _cache[k2] = f
+            if f:
+                r = True
+                break
     _cache[key] = r
     return r
 
@@ -300,7 +312,11 @@ def entails(cons, q, ranges=None):
     if k == "eq":
         return (unsat(list(cons) + [((-e) + 1, "le")], ranges, focus)
                 and unsat(list(cons) + [(e + 1, "le")], ranges, focus))
-    # ne: e <= -1 or e >= 1 entailed
+    # ne: stated as such, or e <= -1 or e >= 1 entailed
+    ne = -e
+    for x, kk in cons:
+        if kk == "ne" and (x == e or x == ne):
+            return True
     return (unsat(list(cons) + [(-e, "le")], ranges, focus)
             or unsat(list(cons) + [(e, "le")], ranges, focus))
 
